@@ -1,5 +1,166 @@
-(** C12 — lemmas (filled in below). *)
-From Coq Require Import ZArith List Bool Arith Lia.
+(** C12 — readable corollaries, solvency over histories, the pre-fix witness, non-vacuity examples.
+    Re-exports the other proof files. *)
+From Coq Require Import ZArith List Bool Arith Lia Permutation.
 Import ListNotations.
-Require Import Nib.Lib.Dec Nib.C10.Model Nib.C12.Model Nib.C12.Spec.
+Require Import Nib.Lib.Dec Nib.C10.Model Nib.C10.Spec Nib.C10.ProofsMedian Nib.C10.ProofsUpdate.
+Require Import Nib.C12.Model Nib.C12.Spec.
+Require Export Nib.C12.ProofsTally Nib.C12.ProofsReward Nib.C12.ProofsStep.
 Local Open Scope Z_scope.
+Local Arguments Z.mul : simpl never.
+Local Arguments Z.add : simpl never.
+Local Arguments Z.sub : simpl never.
+
+(* ---------------------------------------------------------------- misses *)
+
+(** abstaining, not voting, or voting only in band never increases the counter *)
+Theorem abstain_never_miss p st mc id :
+  ids_nodup st -> mc_sorted mc ->
+  (forall pr v, quorum p st pr -> In v (pair_votes st pr) -> pv_voter v = id -> 0 < pv_rate v ->
+                inside_b (p_reward_band p) (pair_votes st pr) (wmedian true (pair_votes st pr)) v = true) ->
+  mc_get id (exp_miss p st mc) = mc_get id mc.
+Proof.
+  intros Hn Hs Hall. rewrite miss_counter_growth by assumption.
+  assert (Hz : spec_miss p st id = 0).
+  { pose proof (spec_miss_nonneg p st id). destruct (Z.eq_dec (spec_miss p st id) 0) as [E|E]; [exact E|].
+    assert (Hpos : 0 < spec_miss p st id) by lia.
+    apply spec_miss_pos_iff in Hpos as [pr [v [Hq [Hv [Hi [Hp Hout]]]]]].
+    rewrite (Hall pr v Hq Hv Hi Hp) in Hout. discriminate. }
+  rewrite Hz. destruct (memb id (eligible_ids st)); lia.
+Qed.
+
+(* ---------------------------------------------------------------- slashing *)
+
+Lemma to_int64_small x : - 2 ^ 63 <= x < 2 ^ 63 -> to_int64 x = x.
+Proof.
+  intro H. unfold to_int64. cbv zeta.
+  destruct (Z_lt_le_dec x 0) as [Hneg|Hpos].
+  - assert (E : x mod 2 ^ 64 = x + 2 ^ 64).
+    { symmetry. apply (Z.mod_unique x (2 ^ 64) (-1) (x + 2 ^ 64)); lia. }
+    rewrite E. assert (E2 : (x + 2 ^ 64 <? 2 ^ 63) = false) by (apply Z.ltb_ge; lia). rewrite E2. lia.
+  - rewrite Z.mod_small by lia. assert (E2 : (x <? 2 ^ 63) = true) by (apply Z.ltb_lt; lia). rewrite E2. reflexivity.
+Qed.
+
+(** the uint64 subtraction periods - misses wraps, but re-read as int64 it is the signed difference:
+    the valid-vote rate is (periods - misses) / periods even when misses exceed periods *)
+Theorem valid_rate_exact P miss :
+  - 2 ^ 63 <= P - miss < 2 ^ 63 -> valid_rate P miss = Z.quot ((P - miss) * PREC) P.
+Proof. intro H. unfold valid_rate, quo_int. rewrite to_int64_small by exact H. reflexivity. Qed.
+
+Theorem slashed_b_iff q mc sv :
+  slashed_b q mc sv = true <->
+  (exists c, In (sv_id sv, c) mc /\ low_rate q c = true) /\
+  sv_exists sv = true /\ sv_bonded sv = true /\ sv_jailed sv = false.
+Proof.
+  unfold slashed_b. rewrite !andb_true_iff, negb_true_iff, existsb_exists. split.
+  - intros [[[[[i c] [Hin Hc]] He] Hb] Hj]. simpl in Hc. apply andb_true_iff in Hc as [Hi Hl].
+    apply Nat.eqb_eq in Hi. subst i. split; [exists c; auto | auto].
+  - intros [[c [Hin Hl]] [He [Hb Hj]]]. split; [split; [split|]|]; auto.
+    exists (sv_id sv, c). split; [exact Hin|]. simpl. rewrite Nat.eqb_refl, Hl. reflexivity.
+Qed.
+
+(** at a window end exactly the existing, bonded, unjailed validators with a low valid-vote rate are
+    jailed and lose min(trunc(power * powerReduction * SlashFraction), tokens); everybody else is untouched *)
+Theorem slash_post_exact q pr mc svs sv :
+  In sv svs ->
+  In (if slashed_b q mc sv then (sv_id sv, true, sv_tokens sv - slash_burn q pr sv)
+      else (sv_id sv, sv_jailed sv, sv_tokens sv)) (slash_post q pr mc svs).
+Proof. intro H. unfold slash_post. apply in_map_iff. exists sv. split; [reflexivity | exact H]. Qed.
+
+Lemma slash_burn_bounds q pr sv : 0 <= sv_tokens sv -> 0 <= slash_burn q pr sv <= sv_tokens sv.
+Proof. intro H. unfold slash_burn. lia. Qed.
+
+Theorem counters_reset fx q s st svs h s' e :
+  end_block12 fx q s st svs h = ROk s' e -> is_period_last h (op_slash_window q) = true -> os_miss s' = [].
+Proof.
+  unfold end_block12. intros H Hw.
+  destruct (is_period_last h (p_vote_period (op_base q)) && update_panics (op_base q) st); [discriminate|].
+  destruct (if is_period_last h (p_vote_period (op_base q)) then period_update (op_base q) st s else (s, [])) as [s1 paid].
+  rewrite Hw in H. destruct (negb fx && slash_panics q (os_miss s1) svs); [discriminate|].
+  injection H as <- _. reflexivity.
+Qed.
+
+(* ---------------------------------------------------------------- solvency over histories *)
+
+Theorem history_solvent q : forall ops s,
+  inv s -> Forall wf_op ops ->
+  Forall (fun x => so_panic (snd x) = false -> solvent (snd x)) (run_obs true q s ops).
+Proof.
+  induction ops as [|o ops IH]; intros s Hi Hw; simpl; [constructor|].
+  inversion Hw as [|? ? Ho Hr]; subst.
+  pose proof (step_P q s (mkEff [] []) o Hi Ho) as Hs.
+  destruct (step true q s o) as [|s' e].
+  - constructor; [simpl; discriminate | constructor].
+  - destruct Hs as [_ Hi']. constructor; [intros _; apply solvent_of_inv; exact Hi' | apply IH; assumption].
+Qed.
+
+(* ---------------------------------------------------------------- witnesses *)
+
+Definition q_ex : oparams :=
+  mkOP (mkParams 1 500000000000000000 1 900 20000000000000000) 100000000000000000 10 690000000000000000.
+Definition hundred : Z := 100000000000000000000.
+
+(** F9: validator 2 has 4 misses in a window of 10 periods (valid rate 0.6 < 0.69) and is no validator
+    any more when the window ends *)
+Definition st_f9 : state :=
+  mkState [mkVal 0 true 10; mkVal 1 true 10] 100 20000000 1000000 [0%nat]
+          [mkAVote 0 [(0%nat, hundred)]; mkAVote 1 [(0%nat, hundred)]] [].
+Definition svs_f9 : list sval :=
+  [mkSV 0 true true false 10 10000000; mkSV 1 true true false 10 10000000; mkSV 2 false false false 0 0].
+Definition s_f9 : ostate := mkOS [(2%nat, 4)] [] [].
+
+Theorem refuted_before_fix :
+  exists q s st svs h, inv s /\ wf st /\ ids_nodup st /\ dom12 q st = true /\
+                       end_block12 false q s st svs h = RPanic /\
+                       exists s' e, end_block12 true q s st svs h = ROk s' e /\ os_miss s' = [].
+Proof.
+  exists q_ex, s_f9, st_f9, svs_f9, 9.
+  split; [split; [intros r []|split; [intro k; destruct k; simpl; lia | simpl; split; [intros ? []|exact I]]]|].
+  split; [intros v [<-|[<-|[]]]; simpl; lia|].
+  split; [unfold ids_nodup; simpl; repeat constructor; simpl; intuition; discriminate|].
+  split; [vm_compute; reflexivity|]. split; [vm_compute; reflexivity|].
+  eexists. eexists. split; [vm_compute; reflexivity | reflexivity].
+Qed.
+
+(* ---------------------------------------------------------------- non-vacuity *)
+
+(** three validators (power 10, 10, 5); validator 2 votes 150 instead of 100 twice, validator 1
+    abstains once; two overlapping allocations; window of 2 periods: validator 2 is slashed *)
+Definition q2 : oparams :=
+  mkOP (mkParams 1 500000000000000000 1 900 20000000000000000) 100000000000000000 2 690000000000000000.
+Definition vals3 : list valinfo := [mkVal 0 true 10; mkVal 1 true 10; mkVal 2 true 5].
+Definition svs3 : list sval :=
+  [mkSV 0 true true false 10 10000000; mkSV 1 true true false 10 10000000; mkSV 2 true true false 5 5000000].
+Definition st3 (vs : list avote) : state := mkState vals3 100 25000000 1000000 [0%nat] vs [].
+Definition bad_votes : list avote :=
+  [mkAVote 0 [(0%nat, hundred)]; mkAVote 1 [(0%nat, hundred)]; mkAVote 2 [(0%nat, 150000000000000000000)]].
+Definition abst_votes : list avote :=
+  [mkAVote 0 [(0%nat, hundred)]; mkAVote 1 [(0%nat, 0)]; mkAVote 2 [(0%nat, 150000000000000000000)]].
+Definition ops_ex : list op :=
+  [OAlloc [100; 0] 3; OEnd (st3 bad_votes) svs3 2; OAlloc [7; 1000] 2; OOther; OEnd (st3 abst_votes) svs3 3].
+
+Example ex_ops_wf : Forall wf_op ops_ex.
+Proof.
+  assert (Hw : forall vs, wf (st3 vs)) by (intros vs v [<-|[<-|[<-|[]]]]; simpl; lia).
+  assert (Hn : forall vs, ids_nodup (st3 vs)) by (intro vs; unfold ids_nodup; simpl; repeat constructor; simpl; intuition; discriminate).
+  unfold ops_ex. repeat constructor; try apply Hw; try apply Hn; simpl; try lia; intro k; destruct k as [|[|[|k]]]; simpl; lia.
+Qed.
+
+Example ex_history :
+  map snd (run_obs true q2 (mkOS [] [] []) ops_ex) =
+  [ mkSObs false [] [mkReward 3 [33; 0]] [100; 0] [] [];
+    mkSObs false [(2%nat, 1)] [mkReward 2 [33; 0]] [68; 0] [(0%nat, [16; 0]); (1%nat, [16; 0])]
+           [(0%nat, false, 10000000); (1%nat, false, 10000000); (2%nat, false, 5000000)];
+    mkSObs false [(2%nat, 1)] [mkReward 2 [33; 0]; mkReward 2 [3; 500]] [75; 1000] [] [];
+    mkSObs false [(2%nat, 1)] [mkReward 2 [33; 0]; mkReward 2 [3; 500]] [75; 1000] [] [];
+    mkSObs false [] [mkReward 1 [33; 0]; mkReward 1 [3; 500]] [39; 500] [(0%nat, [36; 500])]
+           [(0%nat, false, 10000000); (1%nat, false, 10000000); (2%nat, true, 4500000)] ].
+Proof. vm_compute. reflexivity. Qed.
+
+Example ex_domain : dom12 q2 (st3 bad_votes) = true.
+Proof. vm_compute. reflexivity. Qed.
+
+Example ex_miss_nonvacuous : spec_miss (op_base q2) (st3 bad_votes) 2 = 1 /\ spec_miss (op_base q2) (st3 abst_votes) 1 = 0.
+Proof. split; vm_compute; reflexivity. Qed.
+
+Example ex_fair_share_nonvacuous : fair_share 33 10 20 16 /\ portion 33 10 20 = 16.
+Proof. split; [unfold fair_share, PREC; lia | vm_compute; reflexivity]. Qed.
